@@ -11,7 +11,11 @@ def _seeded_bw(seed, n, kind="standard", prefix="sd"):
     rng = random.Random(1000003 * seed + 17)
     out = []
     for i in range(n):
-        out.append(Entry("%s%d_%s" % (prefix, i, kind[:2]), "bytewise", kind, corpus.gen_bw(rng, i),
+        pats = corpus.gen_bw(rng, i)
+        # both construction entry points: every second set goes through build_with_values()
+        vr = random.Random(seed * 13 + i)   # separate stream: the pattern sets do not depend on it
+        vals = [vr.choice([0, 7, 7, 2 ** 32 - 1, vr.randrange(2 ** 32)]) for _ in pats] if i % 2 else None
+        out.append(Entry("%s%d_%s" % (prefix, i, kind[:2]), "bytewise", kind, pats, values=vals,
                          note="seeded(%d)" % seed))
     return out
 
@@ -38,7 +42,10 @@ def _seeded_cw(seed, n, kind="standard", prefix="sc"):
     rng = random.Random(7000001 * seed + 5)
     out = []
     for i in range(n):
-        out.append(Entry("%s%d_%s" % (prefix, i, kind[:2]), "charwise", kind, corpus.gen_cw(rng, i),
+        pats = corpus.gen_cw(rng, i)
+        vr = random.Random(seed * 17 + i)
+        vals = [vr.choice([0, 9, 9, 2 ** 32 - 1, vr.randrange(2 ** 32)]) for _ in pats] if i % 2 == 0 else None
+        out.append(Entry("%s%d_%s" % (prefix, i, kind[:2]), "charwise", kind, pats, values=vals,
                          note="seeded(%d)" % seed))
     return out
 
